@@ -50,12 +50,18 @@ theorem distinct_perm {l l' : List Meta} (p : l.Perm l') (h : DistinctIds l) : D
 def le (a b : Meta) : Prop := less b a = false
 
 theorem le_iff (a b : Meta) : le a b ↔
-    (a.sources.length > b.sources.length ∨ (a.sources.length = b.sources.length ∧ a.id ≤ b.id)) := by
+    (a.sources.length > b.sources.length ∨ (a.sources.length = b.sources.length ∧
+      (a.level > b.level ∨ (a.level = b.level ∧ a.id ≤ b.id)))) := by
   unfold le less
   split
   · rename_i h
-    simp only [decide_eq_false_iff_not, Nat.not_lt]
-    omega
+    split
+    · rename_i h2
+      simp only [decide_eq_false_iff_not]
+      omega
+    · rename_i h2
+      simp only [decide_eq_false_iff_not, Nat.not_lt]
+      omega
   · rename_i h
     simp only [decide_eq_false_iff_not]
     omega
@@ -64,7 +70,9 @@ theorem le_of_less {a b : Meta} (h : less a b = true) : le a b := by
   rw [le_iff]
   unfold less at h
   split at h
-  · simp only [decide_eq_true_eq] at h; omega
+  · split at h
+    · simp only [decide_eq_true_eq] at h; omega
+    · simp only [decide_eq_true_eq] at h; omega
   · simp only [decide_eq_true_eq] at h; omega
 
 theorem le_trans {a b c : Meta} (h1 : le a b) (h2 : le b c) : le a c := by
